@@ -69,8 +69,12 @@ VarClasses == {"Variable", "MixedDimensionalVariable"}
 TimeDep(c) == c \in VarClasses \cup {"TimeDependentDenseArray"}      \* isinstance(op, TimeDependentOperator)
 Iterative(c) == c \in VarClasses                                       \* isinstance(op, IterativeOperator)
 
-LeafNames == {Leaves[i].name : i \in 1..Len(Leaves)}
-LeafTabOK == DOMAIN LeafTab = LeafNames /\ \A i \in 1..Len(Leaves) : LeafTab[Leaves[i].name] = Leaves[i]
+\* TLC re-evaluates the definition substituted for a CONSTANT at every reference; these two zero-arity
+\* definitions are evaluated once
+LV == Leaves
+LT == LeafTab
+LeafNames == {LV[i].name : i \in 1..Len(LV)}
+LeafTabOK == DOMAIN LT = LeafNames /\ \A i \in 1..Len(LV) : LT[LV[i].name] = LV[i]
 
 \* ---------------------------------------------------------------- kinds
 KF == <<"F", 0, 0>>
@@ -143,7 +147,7 @@ Depth(e) == CASE e[1] = "leaf" -> 0
               [] OTHER -> 1 + Depth(e[3])
 
 RECURSIVE PyClass(_)
-PyClass(e) == CASE e[1] = "leaf" -> LeafTab[e[2]].cls
+PyClass(e) == CASE e[1] = "leaf" -> LT[e[2]].cls
                 [] e[1] = "shift" -> PyClass(e[3])        \* copy.copy keeps the class
                 [] OTHER -> "Operator"
 IsRaw(e) == PyClass(e) \in RawClasses
@@ -161,7 +165,7 @@ LeafState(c, tsi, iti, dt, di) ==
 RECURSIVE Direct(_, _, _, _)
 Direct(e, dt, di, mode) ==
   CASE e[1] = "leaf" ->
-         LET L == LeafTab[e[2]]
+         LET L == LT[e[2]]
              s == LeafState(L.cls, e[3], e[4], dt, di)
          IN IF s[1] THEN [k |-> LeafKind(L.cls, L.n, L.m, s[2], s[3], mode), t |-> <<"leaf", e[2], s[2], s[3]>>]
             ELSE [k |-> KE, t |-> <<"leaf", e[2], s[2], s[3]>>]
@@ -197,7 +201,7 @@ IsRoot(e) == WellTyped(e) /\ ~IsRaw(e) /\ Vecish(RootKind(e, "deriv"))
 \* "sumlist": a ProjectionList stands for the sum of its projections.
 RECURSIVE DirectProg(_, _, _)
 DirectProg(e, dt, di) ==
-  CASE e[1] = "leaf" -> LET s == LeafState(LeafTab[e[2]].cls, e[3], e[4], dt, di) IN <<"leaf", e[2], s[2], s[3]>>
+  CASE e[1] = "leaf" -> LET s == LeafState(LT[e[2]].cls, e[3], e[4], dt, di) IN <<"leaf", e[2], s[2], s[3]>>
     [] e[1] = "bin" ->
          LET k0 == Direct(e[3], dt, di, "deriv").k
              k1 == Direct(e[4], dt, di, "deriv").k
@@ -209,20 +213,20 @@ DirectProg(e, dt, di) ==
 \* time-dependent leaves of e with their resolved state: set of <<name, tsi, iti>>
 RECURSIVE TDLeaves(_, _, _)
 TDLeaves(e, dt, di) ==
-  CASE e[1] = "leaf" -> LET c == LeafTab[e[2]].cls
+  CASE e[1] = "leaf" -> LET c == LT[e[2]].cls
                             s == LeafState(c, e[3], e[4], dt, di)
                         IN IF TimeDep(c) THEN {<<e[2], s[2], s[3]>>} ELSE {}
     [] e[1] = "bin" -> TDLeaves(e[3], dt, di) \cup TDLeaves(e[4], dt, di)
     [] e[1] = "fn" -> UNION {TDLeaves(e[3][j], dt, di) : j \in 1..Len(e[3])}
     [] OTHER -> IF e[2] = "time" THEN TDLeaves(e[3], dt + 1, di) ELSE TDLeaves(e[3], dt, di + 1)
 \* current variables (the unknowns the derivative is taken with respect to)
-CurVars(e, dt, di) == {x \in TDLeaves(e, dt, di) : LeafTab[x[1]].cls \in VarClasses /\ x[2] < 0 /\ x[3] < 0}
+CurVars(e, dt, di) == {x \in TDLeaves(e, dt, di) : LT[x[1]].cls \in VarClasses /\ x[2] < 0 /\ x[3] < 0}
 IsPrev(e, dt, di) == TDLeaves(e, dt, di) # {} /\ \A x \in TDLeaves(e, dt, di) : x[2] >= 0 \/ x[3] >= 0
 
 \* the same expression with all shifts pushed into the leaves
 RECURSIVE Resolve(_, _, _)
 Resolve(e, dt, di) ==
-  CASE e[1] = "leaf" -> LET s == LeafState(LeafTab[e[2]].cls, e[3], e[4], dt, di) IN Leaf(e[2], s[2], s[3])
+  CASE e[1] = "leaf" -> LET s == LeafState(LT[e[2]].cls, e[3], e[4], dt, di) IN Leaf(e[2], s[2], s[3])
     [] e[1] = "bin" -> Bin(e[2], Resolve(e[3], dt, di), Resolve(e[4], dt, di))
     [] e[1] = "fn" -> Fn(e[2], [j \in 1..Len(e[3]) |-> Resolve(e[3][j], dt, di)])
     [] OTHER -> IF e[2] = "time" THEN Resolve(e[3], dt + 1, di) ELSE Resolve(e[3], dt, di + 1)
@@ -307,7 +311,7 @@ ShiftT(b, mode) ==
 
 RECURSIVE Build(_)
 Build(e) ==
-  CASE e[1] = "leaf" -> LET c == LeafTab[e[2]].cls
+  CASE e[1] = "leaf" -> LET c == LT[e[2]].cls
                         IN IF c \in RawClasses THEN <<"raw", c, e[2]>> ELSE <<"leaf", c, e[2], e[3], e[4]>>
     [] e[1] = "bin" ->
          LET bl == Build(e[3])
@@ -403,7 +407,7 @@ ParseBin(tag, c0, c1) ==
 
 RECURSIVE Parse(_, _)
 Parse(b, mode) ==
-  CASE b[1] = "leaf" -> LET L == LeafTab[b[3]] IN PV(LeafKind(b[2], L.n, L.m, b[4], b[5], mode), <<"leaf", b[3], b[4], b[5]>>)
+  CASE b[1] = "leaf" -> LET L == LT[b[3]] IN PV(LeafKind(b[2], L.n, L.m, b[4], b[5], mode), <<"leaf", b[3], b[4], b[5]>>)
     [] b[1] = "node" -> ParseBin(b[2], Parse(b[3], mode), Parse(b[4], mode))
     [] b[1] = "eval" -> LET cs == [j \in 1..Len(b[3]) |-> Parse(b[3][j], mode)]
                             k == IF \E j \in 1..Len(cs) : cs[j].k = KE THEN KE ELSE FnK(b[2], [j \in 1..Len(cs) |-> cs[j].k])
@@ -472,7 +476,7 @@ LawPrevNoDerivative(e) ==
       cur == CurVars(e, 0, 0)
       subs == PrevSubs(e, 0, 0)
   IN /\ (p.k[1] = "A") = (cur # {})                           \* a derivative exists iff a current variable occurs
-     /\ {x \in TermLeaves(Norm(p.t)) : LeafTab[x[1]].cls \in VarClasses /\ x[2] < 0 /\ x[3] < 0} = cur
+     /\ {x \in TermLeaves(Norm(p.t)) : LT[x[1]].cls \in VarClasses /\ x[2] < 0 /\ x[3] < 0} = cur
      /\ \A j \in 1..Len(subs) : Parse(Build(subs[j]), "deriv").k[1] # "A"
 \* numpy must never get to broadcast over an AdArray ("ndarray op AdArray" evaluated by numpy gives an object array):
 \* such a result is kind O, and every consumer of it reports the error "numpy capture"
@@ -494,7 +498,7 @@ LawsOf(e) ==
      /\ pv.k = dv.k /\ Equiv(Norm(pv.t), dv.t)
      /\ pv.k = ValKind(pd.k)
      /\ (pd.k[1] = "A") = (cur # {})
-     /\ {x \in TermLeaves(nd) : LeafTab[x[1]].cls \in VarClasses /\ x[2] < 0 /\ x[3] < 0} = cur
+     /\ {x \in TermLeaves(nd) : LT[x[1]].cls \in VarClasses /\ x[2] < 0 /\ x[3] < 0} = cur
      /\ \A j \in 1..Len(subs) : Parse(Build(subs[j]), "deriv").k[1] # "A"
      /\ ~Captured(pd) /\ ~Captured(pv)
 =============================================================================
